@@ -123,6 +123,10 @@ def run(chk, program, tier):
         cls = row['cls']
         if f.type in ('DATE', 'TIME', 'DURATION', 'LOOKUP'):
             k += 1
+            if cls['kind'] == '?':
+                # the producer was not read (C02 / C09 GEN-ENC say so): nothing is known about which value it prefers
+                chk.unknown('JSON-RAW-FIRST', f"{fname}::{f.id}", cls.get('why', 'producer not read')[:200], 'nmea2000/pgns.py', t.s['line'])
+                continue
             chk.check(cls['kind'] in ('DATE', 'TIME', 'LOOKUP'), 'JSON-RAW-FIRST', f"{fname}::{f.id}", file='nmea2000/pgns.py', line=t.s['line'], func=fname,
                       expected='raw_value used when present (value may be ISO text / a name after a JSON round trip)', found=cls['kind'])
     chk.floor('raw_first_sites', k, 600)
